@@ -605,6 +605,9 @@ func (m *Model) Apply(o *Op, h *Hints, wall int64) Resp {
 			t.Rows = map[string]MRow{}
 			return Resp{Code: "OK"}
 		}
+		if o.AllFalse {
+			return errResp("ERR", "neither a prefix nor delete-all")
+		}
 		for k := range t.Rows {
 			if strings.HasPrefix(k, string(o.Prefix)) {
 				delete(t.Rows, k)
